@@ -346,8 +346,11 @@ func runViewsSuite(seed uint64, n int, out *Out, stats *Stats) {
 		if u.value <= set.Fee {
 			continue
 		}
-		tx := w.build(&txPlan{ins: []spendable{u}, outs: []*JOutput{{w.wallets[3].Addr, false, u.value - set.Fee}}, ts: w.now})
-		stage := r.Intn(5) // 0 unknown, 1 pooled, 2 in the tip block, 3 confirmed, 4 spent again
+		// a payment with two outputs to the same address (payment and rest): they share the transaction id
+		half := (u.value - set.Fee) / 2
+		tx := w.build(&txPlan{ins: []spendable{u}, outs: []*JOutput{{w.wallets[3].Addr, false, half}, {w.wallets[3].Addr, false, u.value - set.Fee - half}}, ts: w.now})
+		searchIdx := uint16(r.Intn(2))
+		stage := r.Intn(5) // 0 unknown, 1 pooled, 2 in the tip block, 3 confirmed, 4 one of the two outputs spent again
 		if stage >= 1 {
 			v.Pool.AddTransaction(tx, "a", "b")
 		}
@@ -360,9 +363,10 @@ func runViewsSuite(seed uint64, n int, out *Out, stats *Stats) {
 			v.Pool.Validate(w.now)
 		}
 		if stage >= 4 {
+			spendIdx := uint16(r.Intn(2))
 			c2 := w.confirmed(v, w.wallets[3])
 			for _, s := range c2 {
-				if s.txid == tx.Id() && s.value > set.Fee {
+				if s.txid == tx.Id() && s.idx == spendIdx && s.value > set.Fee {
 					t2 := w.build(&txPlan{ins: []spendable{s}, outs: []*JOutput{{w.wallets[4].Addr, false, s.value - set.Fee}}, ts: w.now})
 					v.Pool.AddTransaction(t2, "a", "b")
 					w.now += set.Interval
@@ -389,7 +393,7 @@ func runViewsSuite(seed uint64, n int, out *Out, stats *Stats) {
 		if failFirst {
 			sender.firstTs = func() (int64, error) { return 0, errors.New("down") }
 		}
-		body := mustJSON(ledger.NewUtxo(ledger.NewInputInfo(0, tx.Id()), ledger.NewOutput(w.wallets[3].Addr, false, 0), 0))
+		body := mustJSON(ledger.NewUtxo(ledger.NewInputInfo(searchIdx, tx.Id()), ledger.NewOutput(w.wallets[3].Addr, false, 0), 0))
 		badBody := r.Chance(1, 12)
 		if badBody {
 			body = []byte("{not json")
@@ -436,7 +440,7 @@ func runViewsSuite(seed uint64, n int, out *Out, stats *Stats) {
 			pl = append(pl, atom(t.Id()))
 		}
 		out.Case(sx("progresscase", id+"p",
-			opt(!badBody, sx(atom(tx.Id()), "0")),
+			opt(!badBody, sx(atom(tx.Id()), fmt.Sprint(searchIdx))),
 			opt(inject != 4, plist(ul)),
 			opt(!failFirst, i64(first)),
 			opt(inject != 5, plist(bl)),
@@ -452,7 +456,7 @@ func runViewsSuite(seed uint64, n int, out *Out, stats *Stats) {
 			want := "rejected"
 			listed := false
 			for _, x := range v.Ureg.Utxos(w.wallets[3].Addr) {
-				if x.TransactionId() == tx.Id() && x.OutputIndex() == 0 {
+				if x.TransactionId() == tx.Id() && x.OutputIndex() == searchIdx {
 					listed = true
 				}
 			}
